@@ -63,7 +63,39 @@ type c17Meta struct {
 	TE     []string `json:"te,omitempty"`     // r.TransferEncoding as net/http's server fills it in (nil: not set)
 	TEHdr  bool     `json:"te_hdr,omitempty"` // a hand-made request: the Transfer-Encoding header is set as well
 	Method string   `json:"method,omitempty"` // "" = POST
+	// Body: what kind of value r.Body is. "" = the scripted stream of the harness; otherwise a value of the standard library,
+	// as net/http and its callers install them: "nobody" = the http.NoBody sentinel itself (an absent or detached body),
+	// "bytes" / "strings" = io.NopCloser over a bytes.Reader / strings.Reader holding the bytes of the script (what
+	// http.NewRequest and middleware that re-installs a consumed body use). To the model these are ordinary streams
+	// (c17StdSteps); their Close calls cannot be counted. Ignored for a nil body and in pair cases.
+	Body string `json:"body,omitempty"`
 }
+
+// c17StdSteps: the script a standard-library body stands for: http.NoBody = the script that has run out (every Read
+// returns 0, io.EOF); a bytes.Reader / strings.Reader = all the bytes of the script as one chunk (a shorter destination
+// gets the first bytes, the rest stays) and then a separate io.EOF.
+func c17StdSteps(kind string, steps []c17Step) []c17Step {
+	switch kind {
+	case "":
+		return steps
+	case "nobody":
+		return nil
+	}
+	var d []byte
+	for _, st := range steps {
+		d = append(d, st.C...)
+		if st.T != 0 {
+			break
+		}
+	}
+	if len(d) == 0 {
+		return []c17Step{{T: 1}}
+	}
+	return []c17Step{{C: Bs(d)}, {T: 1}}
+}
+
+// c17Std: the request of a single-request case carries a standard-library body.
+func c17Std(in c17In) bool { return in.Body != "" && !in.Nil && in.B == nil }
 
 type c17In struct {
 	CL    int64     `json:"cl"`
@@ -244,7 +276,7 @@ func (c17) Enumerate(tier string) []any {
 		}
 		return o
 	}
-	hist := []string{"h r5 r100 r1 c", "h h r3 h r100 r1 c c r1 h r1", "r4 h r100 r1", "h c r1 r0 h r1 c", "c h r1 c", "h r0 r0 r1 r4096 r1", "h", "h h h", "h r5000 r5000"}
+	hist := []string{"h r5 r100 r1 c", "h h r3 h r100 r1 c c r1 h r1", "r4 h r100 r1", "h c r1 r0 h r1 c", "c h r1 c", "h r0 r0 r1 r4096 r1", "h", "h h h", "h r5000 r5000", "h r5000 r5000 c r1 r0 r5000 h r1"}
 	// error / EOF at every offset of a short body, every terminal placement, 1-byte chunks and whole
 	for off := 0; off <= len(body); off++ {
 		for _, term := range []int{1, 2, -1} {
@@ -346,6 +378,27 @@ func (c17) Enumerate(tier string) []any {
 				mn++
 			}
 			out = append(out, c17In{CL: ls.cl, Hdr: Bs(ls.hdr), Nil: true, Ops: ops("h h c r1"), Shape: "nil", c17Meta: m})
+		}
+	}
+	// the body is a value of the standard library: the http.NoBody sentinel, or a NopCloser over a bytes / strings reader
+	// (empty, one byte, some bytes) x every length setting (positive with and without the header, header only, zero,
+	// none) x histories. A positive declared length answers true whatever the body is; otherwise the readable bytes decide.
+	stdBodies := []struct {
+		kind string
+		data string
+	}{{"nobody", ""}, {"bytes", ""}, {"bytes", "x"}, {"bytes", "hello, world"}, {"strings", ""}, {"strings", "hello"}}
+	sn := 0
+	for _, sb := range stdBodies {
+		for _, ls := range []lenSet{{-1, ""}, {0, ""}, {0, "0"}, {5, "5"}, {5, ""}, {1, ""}, {-1, "5"}} {
+			for _, h := range []string{"h", "h h r4 r100 r1 c r1", "r1 h r0 h c c", "h c h r1"} {
+				if tier == "quick" && sb.kind != "nobody" && sn%2 == 1 {
+					sn++
+					continue
+				}
+				sn++
+				out = append(out, c17In{CL: ls.cl, Hdr: Bs(ls.hdr), Steps: c17StdSteps(sb.kind, []c17Step{{C: Bs(sb.data)}}), Ops: ops(h), Shape: "std",
+					c17Meta: c17Meta{Body: sb.kind}})
+			}
 		}
 	}
 	// nil body and the length fast paths
@@ -487,6 +540,20 @@ func c17GenRequest(r *rand.Rand, tier string, salt int) c17In {
 	}
 	in.Steps, in.Shape = steps, shape
 	in.c17Meta = c17GenMeta(r)
+	// the body is a value of the standard library instead of the scripted stream (1 request in 8): mostly the http.NoBody
+	// sentinel, with every length setting (half of them a positive declared length: what is declared decides, not the body)
+	if !in.Nil && r.Intn(8) == 0 {
+		in.Body = []string{"nobody", "nobody", "bytes", "strings"}[r.Intn(4)]
+		in.Steps, in.CErr, in.Shape = c17StdSteps(in.Body, in.Steps), 0, "std"
+		if r.Intn(2) == 0 {
+			in.CL = int64(1 + r.Intn(100))
+			if r.Intn(2) == 0 {
+				in.Hdr = Bs(fmt.Sprint(in.CL))
+			} else {
+				in.Hdr = ""
+			}
+		}
+	}
 	return in
 }
 
@@ -553,6 +620,7 @@ func c17GenRead(r *rand.Rand) int {
 func c17GenPair(r *rand.Rand, tier string) c17In {
 	in := c17GenRequest(r, tier, 0)
 	b := c17GenRequest(r, tier, 101)
+	in.Body, b.Body = "", "" // pair cases use scripted streams only (the steps stay as they are)
 	if r.Intn(4) != 0 { // mostly: both requests are probed for real
 		in.CL, in.Hdr, in.Nil = []int64{-1, 0}[r.Intn(2)], "", false
 		b.CL, b.Hdr, b.Nil = []int64{-1, 0}[r.Intn(2)], "", false
@@ -642,6 +710,21 @@ func c17NewRequest(cl int64, hdr Bs, isNil bool, cerr int, steps []c17Step, m c1
 	if isNil {
 		return req, nil
 	}
+	if m.Body != "" {
+		var data []byte
+		for _, st := range c17StdSteps(m.Body, steps) {
+			data = append(data, st.C...)
+		}
+		switch m.Body {
+		case "nobody":
+			req.Body = http.NoBody
+		case "strings":
+			req.Body = io.NopCloser(strings.NewReader(string(data)))
+		default:
+			req.Body = io.NopCloser(bytes.NewReader(data))
+		}
+		return req, nil
+	}
 	cp := make([]c17Step, len(steps))
 	copy(cp, steps)
 	stream := &c17Stream{steps: cp, cerr: c17Term(cerr)}
@@ -654,9 +737,14 @@ func c17RunLocal(in c17In, emit func(c17Out)) c17Obs {
 	obs := c17Obs{}
 	reqs := make([]*http.Request, 1, 2)
 	streams := make([]*c17Stream, 1, 2)
+	if in.B != nil { // pair cases: scripted streams only (the Close calls of both are counted)
+		in.c17Meta.Body = ""
+	}
 	reqs[0], streams[0] = c17NewRequest(in.CL, in.Hdr, in.Nil, in.CErr, in.Steps, in.c17Meta)
 	if in.B != nil {
-		rb, sb := c17NewRequest(in.B.CL, in.B.Hdr, in.B.Nil, in.B.CErr, in.B.Steps, in.B.c17Meta)
+		mb := in.B.c17Meta
+		mb.Body = ""
+		rb, sb := c17NewRequest(in.B.CL, in.B.Hdr, in.B.Nil, in.B.CErr, in.B.Steps, mb)
 		reqs, streams = append(reqs, rb), append(streams, sb)
 	}
 	for _, op := range in.Ops {
@@ -940,6 +1028,10 @@ func (c17) Coq(inAny any, obsAny any) string {
 			coqZ(in.B.CL), coqBool(in.B.Hdr != ""), coqBool(in.B.Nil), cerrOf(in.B.CErr), stepsOf(in.B.Steps),
 			ops2, outsT, c17CoqNat(obs.Closes), c17CoqNat(obs.ClosesB))
 	}
+	if c17Std(in) { // a standard-library body: the script it stands for; its Close returns nil and cannot be counted
+		return fmt.Sprintf("CHistU %s %s %s %s %s %s", coqZ(in.CL), coqBool(in.Hdr != ""), coqBool(in.Nil),
+			stepsOf(c17StdSteps(in.Body, in.Steps)), opsT, outsT)
+	}
 	return fmt.Sprintf("CHist %s %s %s %s %s %s %s %s", coqZ(in.CL), coqBool(in.Hdr != ""), coqBool(in.Nil), cerr,
 		steps, opsT, outsT, c17CoqNat(obs.Closes))
 }
@@ -1066,6 +1158,13 @@ func c17MetaLabel(m c17Meta) string {
 	case "", "POST", "PUT", "PATCH":
 	default:
 		l += "/bodyless-method"
+	}
+	switch m.Body {
+	case "":
+	case "nobody":
+		l += "/body=http.NoBody"
+	default:
+		l += "/body=std-reader"
 	}
 	return l
 }
